@@ -757,6 +757,10 @@ func merge(a, b string) string {
 	return "mixed"
 }
 
+// flagParam: while a predicate helper is being summarised, the pointer parameter
+// through which it received the address of the disposed flag (nil otherwise).
+var flagParam types.Object
+
 func disposedTestDepth(info *types.Info, cond ast.Expr, flag *types.Var, depth int) (dead bool, ok bool) {
 	c := unparen(cond)
 	neg := false
@@ -780,8 +784,15 @@ func disposedTestDepth(info *types.Info, cond ast.Expr, flag *types.Var, depth i
 			if u, isU := unparen(call.Args[0]).(*ast.UnaryExpr); isU && u.Op == token.AND {
 				return fieldOf(info, u.X) == flag
 			}
+			// atomic.LoadInt32(p) with p the pointer parameter that received &x.flag
+			if flagParam != nil && objOf(info, call.Args[0]) == flagParam {
+				return true
+			}
 		}
 		if r, _, isM := methodCall(call); isM && len(call.Args) == 0 {
+			if flagParam != nil && objOf(info, r) == flagParam {
+				return true
+			}
 			return fieldOf(info, r) == flag
 		}
 		return false
@@ -790,7 +801,26 @@ func disposedTestDepth(info *types.Info, cond ast.Expr, flag *types.Var, depth i
 		return !neg, true
 	}
 	if call, isC := c.(*ast.CallExpr); isC {
-		if d, isP := disposedPredicate(callee(info, call), flag, depth); isP {
+		// l.add(&s.disposed, d): the callee tests the flag through a pointer parameter
+		saved := flagParam
+		if cal := callee(info, call); cal != nil && theWorld != nil {
+			if t := theWorld.Decls[cal]; t != nil {
+				k := 0
+				for _, f := range t.Decl.Type.Params.List {
+					for _, nm := range f.Names {
+						if k < len(call.Args) {
+							if u, isU := unparen(call.Args[k]).(*ast.UnaryExpr); isU && u.Op == token.AND && fieldOf(info, u.X) == flag {
+								flagParam = t.Pkg.TypesInfo.Defs[nm]
+							}
+						}
+						k++
+					}
+				}
+			}
+		}
+		d, isP := disposedPredicate(callee(info, call), flag, depth)
+		flagParam = saved
+		if isP {
 			return d != neg, true
 		}
 	}
@@ -1028,6 +1058,11 @@ func ruleCancelOwnership(w *World, r *Report, rule string) {
 						}
 					}
 				}
+				if g, isGo := n.(*ast.GoStmt); isGo {
+					if _, sc, bad := watcherOf(w, info, g); bad == "" && sc != nil && objOf(info, sc) == cs.scopeObj {
+						gen = append(gen, "watcher-started")
+					}
+				}
 				for _, c := range callsIn(n, false) {
 					if rcv, k, ok := isCloseCall(info, c); ok && k == "scope" && objOf(info, rcv) == cs.scopeObj {
 						gen = append(gen, "closed")
@@ -1072,8 +1107,12 @@ func ruleCancelOwnership(w *World, r *Report, rule string) {
 				r.Fail(rule, con, ex.Pos, "the cancel func of the derived context is neither handed to the new scope nor called on this path: the derived context leaks")
 			case returnsScope && f.Has("created"):
 				r.OK(rule, con, ex.Pos, true, "the scope that owns cancel is returned to the caller")
-			case f.Has("closed") || f.Has("cancelled"):
+			case f.Has("closed"):
 				r.OK(rule, con, ex.Pos, true, "the scope that owns cancel is closed before this failure exit")
+			case f.Has("cancelled") && (!f.Has("created") || f.Has("watcher-started")):
+				r.OK(rule, con, ex.Pos, true, "the derived context is cancelled before this failure exit (no initialised scope exists yet, or its watcher is running and closes it)")
+			case f.Has("cancelled"):
+				r.Fail(rule, con, ex.Pos, "this exit only cancels the derived context of a scope whose initializers have already run, and no watcher has been started for it yet: nothing closes the scope, so the instances its initializers created are never disposed")
 			case f.Has("handed-to-helper"):
 				r.OK(rule, con, ex.Pos, true, "the scope was handed to a private helper that closes it on its failure path (helper not analysed further)")
 			case f.Has("newScope-failed"):
